@@ -8,7 +8,7 @@ from .. import gen, impl, oracle, progs, ser, stream
 
 ID = "C11"
 LEVEL = "proof"
-PROPS_MODULE = "SymmModel.Props.C11All3"
+PROPS_MODULE = "SymmModel.Props.C11All4"
 THEOREMS = [
     "SymmModel.C11.bond_index_spec_qr",
     "SymmModel.C11.bond_index_spec_svd",
@@ -45,10 +45,22 @@ THEOREMS = [
     "SymmModel.C11.svd_reconstructs_tensordotF_any_mode",
     "SymmModel.C11.svd_reconstructs_fused",
     "SymmModel.C11.solve_solves_fermionic_labelled",
-    "SymmModel.C11.solve_labelled_matrix_not_b"
+    "SymmModel.C11.solve_labelled_matrix_not_b",
+    "SymmModel.C11.svd_absorb_tensordotF",
+    "SymmModel.C11.svd_truncated_tensordotF",
+    "SymmModel.C11.svd_truncated_tensordotF_minus_discarded",
+    "SymmModel.C11.truncation_error_tensordotF",
+    "SymmModel.C11.qr_reconstructs_tensordotF_all_modes",
+    "SymmModel.C11.svd_reconstructs_tensordotF_all_modes",
+    "SymmModel.C11.q_blocks_orthonormal",
+    "SymmModel.C11.u_vh_blocks_orthonormal",
+    "SymmModel.C11.r_blocks_upper_triangular",
+    "SymmModel.C11.singular_values_inherit",
+    "SymmModel.C11.qr_isometry_array",
+    "SymmModel.C11.svd_isometry_array"
 ]
-LEAN_FILES = ["SymmModel.Props.C11", "SymmModel.Proofs.LinalgLemmas", "SymmModel.Proofs.LinalgFactors", "SymmModel.Proofs.LinalgDense", "SymmModel.Proofs.LinalgSolve", "SymmModel.Proofs.LinalgTrunc", "SymmModel.Proofs.LinalgRecon", "SymmModel.Proofs.LinalgFermi", "SymmModel.Proofs.LinalgSolveRecon", "SymmModel.Props.C11b", "SymmModel.Props.C11All", "SymmModel.Proofs.LinalgMore", "SymmModel.Proofs.LinalgMore2", "SymmModel.Proofs.LinalgMore3", "SymmModel.Proofs.LinalgMore6", "SymmModel.Props.C11c", "SymmModel.Props.C11d", "SymmModel.Props.C11All2", "SymmModel.Proofs.ReconLabels", "SymmModel.Proofs.ReconSvd", "SymmModel.Proofs.ReconTrunc", "SymmModel.Proofs.ReconSolve", "SymmModel.Proofs.ReconEigh", "SymmModel.Props.C11e", "SymmModel.Props.C11All3", "SymmModel.Proofs.Recon2Core", "SymmModel.Proofs.Recon2Modes", "SymmModel.Proofs.Recon2Solve"]
-PLANNED = ["truncated / absorbed variants through tensordotF (proved through @)", "eigh for matrices carrying dual labels (false: proved sign -1 example, same convention as the C10 known finding)"]
+LEAN_FILES = ["SymmModel.Props.C11", "SymmModel.Proofs.LinalgLemmas", "SymmModel.Proofs.LinalgFactors", "SymmModel.Proofs.LinalgDense", "SymmModel.Proofs.LinalgSolve", "SymmModel.Proofs.LinalgTrunc", "SymmModel.Proofs.LinalgRecon", "SymmModel.Proofs.LinalgFermi", "SymmModel.Proofs.LinalgSolveRecon", "SymmModel.Props.C11b", "SymmModel.Props.C11All", "SymmModel.Proofs.LinalgMore", "SymmModel.Proofs.LinalgMore2", "SymmModel.Proofs.LinalgMore3", "SymmModel.Proofs.LinalgMore6", "SymmModel.Props.C11c", "SymmModel.Props.C11d", "SymmModel.Props.C11All2", "SymmModel.Proofs.ReconLabels", "SymmModel.Proofs.ReconSvd", "SymmModel.Proofs.ReconTrunc", "SymmModel.Proofs.ReconSolve", "SymmModel.Proofs.ReconEigh", "SymmModel.Props.C11e", "SymmModel.Props.C11All3", "SymmModel.Proofs.Recon2Core", "SymmModel.Proofs.Recon2Modes", "SymmModel.Proofs.Recon2Solve", "SymmModel.Props.C11f", "SymmModel.Props.C11All4", "SymmModel.Proofs.Recon3Core", "SymmModel.Proofs.Recon3Trunc", "SymmModel.Proofs.Recon3Iso", "SymmModel.Proofs.Recon3Prod"]
+PLANNED = ["fermionic array-level isometry through dagger() and @ (it is \u00b11 per bond charge: the per-block value-view orthonormality is proved", "same convention as the C10 known finding)", "eigh / solve through tensordot rather than @"]
 RULE = ("random abelian and fermionic matrices (all symmetries; direct or obtained by fusing rank-3/4 arrays; every "
         "dualness pattern and total charge incl. odd; tall, wide, square and rank-deficient blocks; missing blocks; "
         "real/complex; pending signs): qr (plain and stabilised), svd, eigh (Hermitian charge-zero), solve. The "
